@@ -105,6 +105,7 @@ def apply(eng, rule: Rule, fr, topology, enter, leave, root):
     eng.assumptions.add("derived rule: traverse client rule (consequence of the proved contract of _traverse_dfs, argued in DESIGN.md)")
     ctx = Ctx(P, n, rz, Sub, nkids, kid, rank)
     eng.ghost["last-traverse-Sub"] = Sub  # so that the caller's postconditions can speak about the subtree of this call
+    eng.ghost["last-traverse-ctx"] = ctx  # ... and about the children enumeration (nkids / kid / rank) of this call
 
     def vars_now():
         eng.cur_frame = fr
@@ -116,6 +117,9 @@ def apply(eng, rule: Rule, fr, topology, enter, leave, root):
         out = []
         for m in rule.modifies:
             if isinstance(m, tuple) and m[0] == "local":
+                continue
+            if callable(m):  # fn(eng) -> ghost object of the contract that is not a variable of the traversing frame
+                out.append(m(eng))
                 continue
             hint = None
             if isinstance(m, tuple):  # ("expr", element kinds): a still-concrete list / dict is promoted to a symbolic one of that element type
@@ -165,6 +169,7 @@ def apply(eng, rule: Rule, fr, topology, enter, leave, root):
                 eng.assume(_zb(rule.Qe(eng, vars_now(), par, pre, ctx)))
             ret = eng.call(enter, [xs, pre], {})
             if rule.ghost_enter is not None:
+                ctx.ret = ret  # the value the real callback returned (ghost code may record it)
                 rule.ghost_enter(eng, vars_now(), xz, ctx)
             ENT2 = z3.Store(ENT, xz, z3.BoolVal(True))
             eng.prove(f"{lab}/enter/invariant-preserved", _zb(rule.J(eng, vars_now(), ENT2, LEFT, ctx)), "invariant")
@@ -195,6 +200,7 @@ def apply(eng, rule: Rule, fr, topology, enter, leave, root):
             eng.assume(z3.ForAll([k], z3.Implies(z3.And(0 <= k, k < nkids(xz)), _zb(rule.Ql(eng, v, kid(xz, k), Sym(sel(args.cols[0], k), kind), ctx)))))
             ret = eng.call(leave, [xs, args], {})
             if rule.ghost_leave is not None:
+                ctx.ret, ctx.args = ret, args
                 rule.ghost_leave(eng, vars_now(), xz, ctx)
             LEFT2 = z3.Store(LEFT, xz, z3.BoolVal(True))
             eng.prove(f"{lab}/leave/invariant-preserved", _zb(rule.J(eng, vars_now(), ENT, LEFT2, ctx)), "invariant")
